@@ -117,6 +117,7 @@ static rc::Gen<P> genP() {
     P p; p.mode = *irange(0, 2); p.seed = (uint32_t)*irange(1, 1 << 30);
     gf::Opts o; o.max_cols = 3; o.max_rows = 12; o.max_rgs = 1; o.thrift_extras = false; o.layouts = false; o.stats = false; o.max_pages = 2;
     o.types = {pq::INT32, pq::INT64, pq::FLOAT, pq::DOUBLE, pq::BYTE_ARRAY, pq::FIXED_LEN_BYTE_ARRAY};
+    o.nested = *irange(0, 2) == 0;   // a third of the files: structs / lists around the leaves (column index != schema element index - 1)
     p.fs.root = gf::genSchema(o);
     auto lv = pw::leaves(p.fs.root);
     int nrg = *irange(1, 12);
